@@ -245,12 +245,14 @@ pub fn table_strategy(max_merges: usize) -> BoxedStrategy<(Vec<String>, Table)> 
                 let (left, right) = match mode {
                     0 | 1 => (pick(l, true), pick(r, false)),  // extend a chain to the right
                     2 => (pick(l, false), pick(r, true)),      // extend a chain to the left
-                    3 => (vec![b' '], pick(r, false)),         // whitespace-prefixed token
+                    3 | 7 => (vec![b' '], pick(r, false)),     // whitespace-prefixed token
                     _ => (pick(l, false), pick(r, false)),
                 };
                 let e = [left.as_slice(), right.as_slice()].concat();
-                // words are `\s+\S+`: whitespace can only lead; other shapes never apply
-                if e.len() > 12 || toks.contains(&e) || e[1..].contains(&b' ') {
+                // words are `\s+\S+`: whitespace can only lead, so mostly such shapes; one pick
+                // in eight may put spaces anywhere (runs of spaces at the start of a word do
+                // apply, other shapes are well-formed entries that never match)
+                if e.len() > 12 || toks.contains(&e) || (mode != 7 && e[1..].contains(&b' ')) {
                     continue;
                 }
                 toks.push(e.clone());
@@ -275,6 +277,8 @@ pub fn table_text(letters: Vec<String>, table: Table, max_words: usize) -> Boxed
     let word = proptest::collection::vec(select(pieces), 1..=5).prop_map(|v| v.concat());
     let sep = prop_oneof![
         6 => Just(" ".to_string()),
+        1 => Just("  ".to_string()),
+        1 => Just("   ".to_string()),
         2 => crate::gen::ws_run(1, 3),
         1 => Just(String::new()),
     ];
